@@ -192,11 +192,11 @@ def run(tier, seed, procs):
     quick = tier == 'quick'
     col = Collector(PROP)
     cases = []
-    top = 3
+    top = 3 if quick else 4
     pats = ['all-equal', 'other-deviates', 'delete-deviates', 'second-create-deviates', 'only-create-deviates']
     for nc, nd, no, pat, ai in itertools.product(range(top + 1), range(top + 1), range(top + 1),
                                                  pats, (False, True)):
-        for ps in ((0,) if quick else (0, 1, 2)):
+        for ps in ((0,) if quick else (0, 1, 2, 3)):
             c = make_case(nc, nd, no, pat, ai, perm_seed=ps + seed, other_off=ps)
             if c is not None:
                 cases.append(c)
@@ -212,6 +212,6 @@ def run(tier, seed, procs):
             extra.append(c)
     drive.run_given(st.tuples(st.integers(0, 4), st.integers(0, 4), st.integers(0, 5),
                               st.sampled_from(pats), st.booleans(), st.integers(0, 9)),
-                    one, 150 if quick else 3000, seed)
+                    one, 150 if quick else 6000, seed)
     run_batch(col, cases + extra)
     return col
